@@ -319,6 +319,83 @@ def gen_pair(rng, pool, with_load):
     return one(), one()
 
 
+# ---------------------------------------------------------------------------
+# determinism: repeated runs are byte-identical (operators that might iterate a Go map)
+# ---------------------------------------------------------------------------
+DET_DOC = ("rows:\n"
+           "  - {id: 1, name: a, g: x}\n"
+           "  - {id: 2, name: b, g: y, colour: red, size: 3, k1: 1, k2: 2, k3: 3}\n"
+           "  - {id: 3, g: x, weight: 7, owner: x, shape: round, age: 9, k4: 4, k5: 5, k6: 6}\n"
+           "  - {id: 4, g: z, m1: 1, m2: 2, m3: 3, m4: 4, m5: 5, m6: 6}\n"
+           "m: {z9: 1, b2: 2, q7: 3, a1: 4, k5: 5, c3: 6, y8: 7, d4: 8, x0: 9}\n")
+DET_ROW_KEYS = ["id", "name", "g", "colour", "size", "k1", "k2", "k3", "weight", "owner", "shape", "age", "k4", "k5", "k6", "m1", "m2", "m3", "m4", "m5", "m6"]
+DET_M_KEYS = ["z9", "b2", "q7", "a1", "k5", "c3", "y8", "d4", "x0"]
+# (expression, output format, expected stdout or None): expected = first-seen / document order where it is known
+DET = [
+    (".rows | pivot", "yaml", None),
+    (".rows | pivot | keys", "json", json.dumps(DET_ROW_KEYS, separators=(",", ":")) + "\n"),
+    (".rows | pivot | to_entries | map(.key)", "json", json.dumps(DET_ROW_KEYS, separators=(",", ":")) + "\n"),
+    ("[.rows[1], .rows[2], .rows[3]] | pivot | keys | length", "json", "21\n"),
+    (".m | keys", "json", json.dumps(DET_M_KEYS, separators=(",", ":")) + "\n"),
+    (".m | to_entries | map(.key)", "json", json.dumps(DET_M_KEYS, separators=(",", ":")) + "\n"),
+    (".m | with_entries(.value += 1) | keys", "json", json.dumps(DET_M_KEYS, separators=(",", ":")) + "\n"),
+    (".m | sort_keys(.) | keys", "json", json.dumps(sorted(DET_M_KEYS), separators=(",", ":")) + "\n"),
+    (".rows | group_by(.g) | map(map(.id))", "json", "[[1,3],[2],[4]]\n"),
+    (".rows | unique_by(.g) | map(.id)", "json", "[1,2,4]\n"),
+    (".rows | group_by(.g)", "yaml", None), (".rows | unique_by(.g)", "yaml", None),
+    (".rows[1] * .rows[2] * .rows[3]", "yaml", None), (".rows[1] * .rows[2] * .rows[3] | keys", "json", None),
+    (".rows[0] + .rows[1] + .rows[3]", "yaml", None), (".m * {\"n1\": 1, \"n2\": 2, \"n3\": 3}", "yaml", None),
+    (".m | to_entries | from_entries", "yaml", None), (".m | map_values(. + 1)", "yaml", None), (".m | omit([\"z9\", \"a1\"])", "yaml", None),
+    (".m | pick([\"d4\", \"z9\", \"c3\"])", "yaml", None), (".m", "props", None), (".m", "json", None), (".m", "xml", None), (".m", "csv", None),
+    (".m | to_props", "yaml", None), (".m | to_json(0)", "yaml", None), (".m | to_xml", "yaml", None), ("[.m | .. | select(tag == \"!!int\")]", "json", None),
+    (".rows", "csv", None), (".rows | @csv", "yaml", None), (".rows | map(keys) | flatten | unique", "json", None),
+    ("[.rows[] | to_entries | .[].key] | unique", "json", None), (".rows | map(with_entries(.)) | pivot | keys", "json", None),
+    (".rows | sort_by(.g) | map(.id)", "json", None), (".rows[] | select(has(\"k4\")) | keys", "json", None),
+    ("... comments=\"\" | .m", "yaml", None), ("explode(.) | .m | keys", "json", None), (". as $d | $d.rows | pivot | keys", "json", None),
+    ("[.rows[] | {(.g): .id}] | .[0] * .[1] * .[3]", "yaml", None), (".m | to_entries | sort_by(.value) | reverse | from_entries", "yaml", None),
+]
+
+
+def determinism_sweep(chk, loaddir, thorough):
+    """returns list of (step, kind, detail) for evaluations whose repeated runs are not byte-identical / not in the expected order"""
+    lp = os.path.join(loaddir, "det.yml")
+    with open(lp, "w") as f:
+        f.write(DET_DOC)
+    det = list(DET) + [("load(\"%s\") | .rows | pivot | keys" % lp, "json", json.dumps(DET_ROW_KEYS, separators=(",", ":")) + "\n"),
+                       ("load(\"%s\") | .m | to_entries" % lp, "yaml", None), ("load_str(\"%s\") | from_yaml | .rows | pivot" % lp, "yaml", None)]
+    reps, procs = (60, 8) if thorough else (25, 3)
+    bad = []
+
+    def one(item):
+        e, o, exp = item
+        step = {"expr": e, "input": DET_DOC, "in": "yaml", "out": o, "all": False, "reuse_tree": False, "reuse_dec": False, "pf": 0}
+        outs = []
+        for _ in range(procs):
+            r = run_history([step] * reps)       # a new process each time, `reps` evaluations in it
+            if r is None:
+                return (step, "crash", {})
+            outs += r
+        first = outs[0]
+        for k, x in enumerate(outs):
+            if x != first:
+                return (step, "nondeterministic", {"first": [first[0].decode("utf-8", "replace"), first[1]],
+                                                   "run": k, "other": [x[0].decode("utf-8", "replace"), x[1]]})
+        def val(t):
+            try:
+                return json.loads(re.sub(r"\x1b\[[0-9;]*m", "", t))      # the JSON encoder's colours / indent do not matter here
+            except Exception:
+                return t
+        if exp is not None and (val(first[0].decode("utf-8", "replace")) != val(exp) or first[1]):
+            return (step, "order", {"got": [first[0].decode("utf-8", "replace"), first[1]], "expected": exp})
+        return None
+    with ThreadPoolExecutor(vlib.NCPU) as ex:
+        for item, r in zip(det, ex.map(one, det)):
+            chk.count(("det", item[0], item[1]), nontrivial=True)
+            if r:
+                bad.append(r)
+    return bad, len(det), reps * procs
+
+
 def load_kind(expr):
     m = re.match(r"(load\w*)\(", expr)
     return m.group(1) if m else None
@@ -339,6 +416,17 @@ def replay(rp):
         s = steps[i]
         b = base.get(s["expr"], s["input"], s["in"], s["out"], s["all"], eff)
         return b is not None and outs[i] == b
+    if rp.get("kind") == "determinism":
+        outs = []
+        for _ in range(4):
+            r = run_history([rp["step"]] * 40)
+            if r is None:
+                return False
+            outs += r
+        if any(x != outs[0] for x in outs):
+            return False
+        strip = lambda t: re.sub(r"\s|\x1b\[[0-9;]*m", "", t)
+        return rp.get("expected") is None or strip(outs[0][0].decode("utf-8", "replace")) == strip(rp["expected"])
     if rp.get("kind") == "concurrent":
         r = vlib.yqh_batch([{"op": "concurrent", "a": rp["a"], "b": rp["b"], "n": 200, "deadline_ms": 120000}])[0]
         return bool(r) and r.get("mismatches") == 0
@@ -491,6 +579,14 @@ def run(chk):
     chk.extra["known_counts"] = known_counts
     chk.extra["correspondence_disagreements"] = ncorr
     chk.extra["fresh_process_baselines"] = len(base.cache)
+
+    # ---------------- determinism: repeated runs, in one process and in new processes ----------------
+    bad, ndet, nrep = determinism_sweep(chk, loaddir, thorough)
+    for step, kind, detail in bad[:5]:
+        chk.violation({"kind": "determinism", "step": step, "class": kind, "detail": detail, "expected": detail.get("expected")}, True,
+                      "repeated runs of the same evaluation are not byte-identical" if kind != "order" else
+                      "key order is not the first-seen / document order")
+    chk.extra["determinism_sweep"] = {"evaluations": ndet, "runs_each": nrep, "failing": len(bad)}
 
     # ---------------- concurrency: values (both tiers), data races (thorough, -race build) ----------------
     npairs = 2000 if thorough else 150
